@@ -185,7 +185,8 @@ PinHeldP(C, o, held) == ((~C.any_pin) /\ (o.wipe_ok = "t" \/ o.change_ok = "t"))
 (***************************************************************************)
 (* Carried: when the preconditions hold the operation is carried out.      *)
 (* C = [op, plat, any_pin, no_unlock, src, pins, upin, outfile, answers,   *)
-(*      d0 : [mode, onb, echo], acc : [wipe, unlock, newpin], prev_seed]   *)
+(*      d0 : [mode, onb, echo], acc : [wipe, unlock, newpin], pre,         *)
+(*      prev_seed]                                                         *)
 (* d0.onb = "garbled": the device answers IS_ONBOARD with neither yes nor  *)
 (* no - no precondition holds.                                             *)
 (* "?" in d0 = the run never looked at that dimension (model only): it is  *)
@@ -214,10 +215,18 @@ UnlockPre(C)    == Is(C.d0.mode, "boot") /\ Is(C.d0.onb, "yes") /\ Is(C.d0.echo,
 \* operator supplied.  Fits: the device holds at most 8 PIN characters (firmware MAX_PIN_LENGTH).
 Fits(C) == \A k \in 1..Len(C.pins) : Len(C.pins[k]) <= 8
 
+\* C.pre = what already sits at the output path(s) when the command comes to write: "absent", left
+\* by an earlier run against the "same" device, against an"other" device, the other device's files
+\* with an "extra" entry / with "fewer" entries, "notjson" (garbage), "dir" (a directory at the
+\* output path), "dirjson" (a directory where the JSON goes).  Only a directory makes the path
+\* unwritable; everything else is simply replaced.
+Writable(C) == C.pre \notin {"dir", "dirjson"}
+Writes(C)   == C.outfile /\ (C.op = "pubkeys" \/ (C.op = "onboard" /\ C.plat = "ledger"))
+
 CarriedOnboard(C, o, out) ==
     LET pre == /\ Is(C.d0.mode, "boot") /\ Is(C.d0.onb, "no") /\ Is(C.d0.echo, "t")
                /\ SaysYes(C.answers) /\ OnbPinOK(C)
-               /\ (C.plat = "ledger" => C.outfile) IN
+               /\ (C.plat = "ledger" => (C.outfile /\ Writable(C))) IN
     pre => /\ (o.nacks = 0) => (o.wipes = 1 /\ o.seed # <<>> /\ out = "ok")
            /\ (C.acc.wipe = "t" /\ Fits(C))
                  => (o.wipes = 1 /\ o.wipe_ok = "t" /\ o.nacks = 0 /\ out = "ok")
@@ -242,11 +251,13 @@ CarriedChangepin(C, o, out) ==
 
 CarriedPubkeys(C, o, out) ==
     IF C.no_unlock
-    THEN (Is(C.d0.mode, "signer") /\ o.nacks = 0) => (DocPaths \subseteq o.keys /\ out = "ok")
+    THEN (Is(C.d0.mode, "signer") /\ o.nacks = 0)
+            => (DocPaths \subseteq o.keys /\ ((Writes(C) => Writable(C)) => out = "ok"))
     ELSE (UnlockPre(C) /\ UnlPinOK(C))
             => /\ (o.nacks = 0) => (o.unlocks = 1)
                /\ (C.acc.unlock = "t" /\ Fits(C)) => (o.unlocks = 1 /\ o.unlock_ok = "t")
-               /\ (o.nacks = 0 /\ o.modeq = "signer") => (DocPaths \subseteq o.keys /\ out = "ok")
+               /\ (o.nacks = 0 /\ o.modeq = "signer")
+                     => (DocPaths \subseteq o.keys /\ ((Writes(C) => Writable(C)) => out = "ok"))
 
 CarriedP(C, o, out) ==
     IF C.op = "onboard" THEN CarriedOnboard(C, o, out)
@@ -258,7 +269,10 @@ CarriedP(C, o, out) ==
 (***************************************************************************)
 (* PubkeysWritten.  files = [txt, json : Seq(<<path, key>>)] as read back  *)
 (* from disk; expect = Seq([path, c, u]): the device's keys (ground truth) *)
-(* compressed / uncompressed by the harness' own encoder.                  *)
+(* compressed / uncompressed by the harness' own encoder.  Exactly the     *)
+(* device's CURRENT keys for the six documented paths and nothing else -   *)
+(* whatever sat at the output paths before (C.pre).  WriteError: a run     *)
+(* that cannot write its output reports an error.                          *)
 (***************************************************************************)
 Range(s) == {s[k] : k \in 1..Len(s)}
 PubkeysWrittenP(C, out, files, expect) ==
@@ -268,6 +282,8 @@ PubkeysWrittenP(C, out, files, expect) ==
         /\ Range(files.txt) = {<<x.path, x.c>> : x \in Range(expect)}
         /\ Len(files.json) = Cardinality(DocPaths)
         /\ Range(files.json) = {<<x.path, x.u>> : x \in Range(expect)}
+
+WriteErrorP(C, out) == (Writes(C) /\ ~Writable(C)) => out = "err"
 
 \* what TraceAdmin re-evaluates after every event
 StepClauses(o) == <<
